@@ -1,4 +1,4 @@
-#!/venv/bin/python
+#!/usr/bin/env python3-vt
 """Generate /verif/MANIFEST.json from the table below and validate it against the schema."""
 import json, os, sys
 ROOT = os.path.dirname(os.path.dirname(os.path.abspath(__file__)))
